@@ -41,6 +41,7 @@ def run(rep, pool, driver, tier):
     quick = tier == 'quick'
     _write_read(rep, pool, driver, r, quick)
     _kernels(rep, pool, driver, r, quick)
+    _kernels_wh(rep, pool, driver, r, quick)
     _bad_header(rep, pool, driver, r, quick)
     if not quick:
         _sparse(rep, pool, driver, r)
@@ -180,6 +181,65 @@ def _kernels(rep, pool, driver, r, quick):
                            'expected': model['cells'][:8], 'theorem_or_stream': 'C06 kernel_decode_encode + C01 kernelRowEvent_spec: %s on model-written chunks' % t['entry']})
         elif len(t['chunks']) > 1:
             rep.sample({'entry': t['entry'], 'shape': t['shape'], 'rows': t['rows'], 'n_chunks': len(t['chunks']), 'cells': impl['cells'][:4]})
+
+
+def _kernels_wh(rep, pool, driver, r, quick):
+    """the three Widrow-Hoff entry points on model-written chunks vs the Lean kernel models"""
+    tasks, reqs = [], []
+    for i in range(24 if quick else 300):
+        n_cues, n_outs = r.randint(1, 5), r.randint(1, 4)
+        n_cd, n_od = r.randint(1, 4), r.randint(1, 4)
+        wide = (i % 12 == 0)
+        if wide:
+            n_cues = 1100
+        chunk_events = []
+        for _ in range(r.randint(1, 3)):
+            es = []
+            for _ in range(r.randint(1, 3)):
+                kc = r.randint(1025, n_cues) if wide and r.random() < 0.6 else r.randint(0, min(n_cues, 4))
+                cs = r.sample(range(n_cues), kc) if wide else [r.randrange(n_cues) for _ in range(kc)]
+                es.append([cs, [r.randrange(n_outs) for _ in range(r.randint(0, 3))]])
+            chunk_events.append(es)
+        chunks = _chunks_for(driver, chunk_events)
+        p = dict(gen.params(r), eta=r.choice(['1/2', '1/4', '1/8']))
+        cv = [['%d/%d' % (r.randint(-2, 2), r.choice([1, 2])) for _ in range(n_cd)] for _ in range(n_cues)]
+        ov = [['%d/%d' % (r.randint(-2, 2), r.choice([1, 2])) for _ in range(n_od)] for _ in range(n_outs)]
+        for entry in ('omp_b2r', 'omp_r2b', 'omp_r2r'):
+            if wide and entry != 'omp_b2r':
+                cvx = [row[:1] for row in cv]
+            else:
+                cvx = cv
+            shape = {'omp_b2r': [n_od, n_cues], 'omp_r2b': [n_outs, len(cvx[0])], 'omp_r2r': [n_od, len(cvx[0])]}[entry]
+            ch, nj = r.randint(1, shape[0] + 1), r.choice([1, 2, 5])
+            t = dict(p, op='kernel', entry=entry, chunks=chunks, shape=shape, chunk=ch, n_jobs=nj,
+                     cue_vectors=cvx, outcome_vectors=ov)
+            q = dict(p, op='kernel_wh', entry=entry, chunks=chunks, n_rows=shape[0], n_cols=shape[1], chunk=ch,
+                     n_out_dims=n_od, cue_vectors=cvx, outcome_vectors=ov)
+            tasks.append(t)
+            reqs.append(q)
+    impls = pool.map(tasks)
+    models = driver.ask(reqs)
+    for t, impl, model in zip(tasks, impls, models):
+        rep.case({'entry': t['entry'], 'shape': t['shape'], 'chunks': [c[:64] for c in t['chunks']], 'cv': t['cue_vectors'][:3]},
+                 nontrivial=True, stream='kernel_entry_points_wh')
+        rep.count('entry:' + t['entry'])
+        exact = model['bits'] <= 53
+        prob = None
+        if 'err' in impl:
+            prob = 'entry point raised %s: %s' % (impl['err'], impl.get('msg'))
+        else:
+            mc = {k: frac(v) for k, v in model['cells']}
+            ic = {k: frac(v) for k, v in impl['cells']}
+            for k in set(mc) | set(ic):
+                a, b = ic.get(k, Fraction(0)), mc.get(k, Fraction(0))
+                ok = (a == b) if exact else abs(a - b) <= Fraction(1, 2 ** 30) * max(1, abs(b))
+                if not ok:
+                    prob = 'flat cell %d: kernel %s, model %s' % (k, float(a), float(b))
+                    break
+        if prob:
+            rep.violation({'what': prob, 'input': {k: v for k, v in t.items() if k not in ('cue_vectors', 'outcome_vectors')},
+                           'observed': impl.get('cells', impl)[:8] if 'cells' in impl else impl, 'expected': model['cells'][:8],
+                           'theorem_or_stream': 'C06 kernel_decode_encode + C08 wh*_eq_spec: %s on model-written chunks' % t['entry']})
 
 
 def _corrupt(hexs, kind):
